@@ -30,7 +30,7 @@ import (
 
 var docValStrings = []string{"hello", "yes", "no", "true", "null", "~", "0x1f", "1e3", "12", "2002-08-15", "a: b", "- x", "#c", "'q'", "\"dq\"",
 	"tab\there", "multi\nline", "trailing ", " leading", "é↑", "{{matrix}}", "$HOME", "a,b", "[x]", "{y}", "&a", "*b", "!tag", "%d", "@at",
-	"`bt`", "|", ">", "?", ":", "-", "=", "<", "cr\rlf", "x y", "\U0001F600", "0", "-1", "1.0", "on", "OFF", "Null", "3:25:45"}
+	"`bt`", "|", ">", "?", ":", "-", "=", "<", "cr\rlf", "crcrlf\r\r\nend", "crlf\r\nend", "lfcr\n\rend", "tail\r", "x y", "\U0001F600", "0", "-1", "1.0", "on", "OFF", "Null", "3:25:45"}
 var docKeyStrings = []string{"k", "a b", "", "12", "true", "null", "~", "x: y", "#h", "'s'", "é", "0x1f", "1e3", "- d", "[", "*s", "&r", "!t", "|", ">",
 	"%p", "@a", "yes", "multi\nkey", "agents", "retry", "if", "depends_on", "soft_fail", "timeout_in_minutes", "0", "-", "?", "k2", "k3", "zz"}
 var docSources = []string{"docker#v1", "my-org/thing#main", "ecr", "github.com/buildkite-plugins/docker-buildkite-plugin#v2", "./local", "https://example.com/p.git#v1"}
